@@ -49,19 +49,21 @@ CONTRACTS = {
     (G, 'BipV.left_order'): {'assumed': 'size view', 'params': {}, 'returns_expr': 'self.lorder'},
     (G, 'BipV.right_order'): {'assumed': 'size view', 'params': {}, 'returns_expr': 'self.rorder'},
     (G, 'BipV.right_neighbors'): {
-        'assumed': 'neighbour view (C16): refused iff u is not a left vertex; a strictly increasing list of right vertices',
-        'params': {'u': 'int'}, 'raises': {'ValueError': 'not (1 <= u and u <= self.lorder)'}, 'returns': 'iseq',
+        'assumed': 'neighbour view (C16): a strictly increasing list of right vertices; only an argument that is not a left vertex may be refused '
+                   '(BipartiteGraph refuses it, CompleteBipartiteGraph does not look)',
+        'params': {'u': 'int'}, 'may_raise': {'ValueError': 'not (1 <= u and u <= self.lorder)'}, 'returns': 'iseq',
         'ensures': ['result == rnbrs(self.gid, u)', STRICT,
                     'forall(lambda i: implies(0 <= i and i < ilen(result), 1 <= iget(result, i) and iget(result, i) <= self.rorder))']},
     (G, 'BipV.left_neighbors'): {
-        'assumed': 'neighbour view (C16): refused iff v is not a right vertex; every listed w is a left vertex that has v among its right neighbours',
-        'params': {'v': 'int'}, 'raises': {'ValueError': 'not (1 <= v and v <= self.rorder)'}, 'returns': 'iseq',
+        'assumed': 'neighbour view (C16): every listed w is a left vertex that has v among its right neighbours; only an argument that is not a '
+                   'right vertex may be refused',
+        'params': {'v': 'int'}, 'may_raise': {'ValueError': 'not (1 <= v and v <= self.rorder)'}, 'returns': 'iseq',
         'ensures': ['result == lnbrs(self.gid, v)',
                     'forall(lambda i: implies(0 <= i and i < ilen(result), 1 <= iget(result, i) and iget(result, i) <= self.lorder and '
                     'exists(lambda k: 0 <= k and k < ilen(rnbrs(self.gid, iget(result, i))) and iget(rnbrs(self.gid, iget(result, i)), k) == v)))']},
     (G, 'BipV.right_degree'): {
         'assumed': 'degree view (C16): len(right_neighbors(u))',
-        'params': {'u': 'int'}, 'raises': {'ValueError': 'not (1 <= u and u <= self.lorder)'}, 'returns': 'int',
+        'params': {'u': 'int'}, 'may_raise': {'ValueError': 'not (1 <= u and u <= self.lorder)'}, 'returns': 'int',
         'ensures': ['result == ilen(rnbrs(self.gid, u))', 'result >= 0']},
     (G, 'BipV.has_edge'): {
         'assumed': 'edge view (C16): (u, v) is an edge iff u is a left vertex and v occurs among its neighbours',
@@ -108,8 +110,8 @@ CONTRACTS = {
         # the point pattern (u, v): refused iff (u, v) is not an edge, otherwise exactly that index
         'params': {'pattern': 'tuple:int,int'},
         'supports': ['len(pattern) == 2', 'pattern[0] is not None and pattern[1] is not None'],
-        'requires': ['1 <= pattern[0]', 'pattern[0] <= self.G.lorder'],
-        'raises': {'ValueError': 'not exists(lambda k: 0 <= k and k < ilen({nb}) and iget({nb}, k) == pattern[1])'.format(nb=NB.format('pattern[0]'))},
+        # rejected iff (u, v) is not an edge - in particular every u outside the left side
+        'raises': {'ValueError': 'not (1 <= pattern[0] and pattern[0] <= self.G.lorder and exists(lambda k: 0 <= k and k < ilen({nb}) and iget({nb}, k) == pattern[1]))'.format(nb=NB.format('pattern[0]'))},
         'returns': 'tuple1:int,int',
         'ensures': ['len(result) == 1', 'result[0][0] == pattern[0]', 'result[0][1] == pattern[1]'],
     },
@@ -119,8 +121,7 @@ CONTRACTS = {
         # as a callee (and variant `point`): the call e(u, v) with both components given
         'params': {'index': 'tuple:int,int'}, 'returns': 'int',
         'supports': ['len(index) == 2', 'index[0] is not None and index[1] is not None'],
-        'requires': ['1 <= index[0]', 'index[0] <= self.G.lorder'],
-        'raises': {'ValueError': 'not exists(lambda k: 0 <= k and k < ilen({nb}) and iget({nb}, k) == index[1])'.format(nb=NB.format('index[0]'))},
+        'raises': {'ValueError': 'not (1 <= index[0] and index[0] <= self.G.lorder and exists(lambda k: 0 <= k and k < ilen({nb}) and iget({nb}, k) == index[1]))'.format(nb=NB.format('index[0]'))},
         'ensures': ['0 <= result - self.offset[index[0]]', 'result - self.offset[index[0]] < ilen({})'.format(NB.format('index[0]')),
                     'iget({}, result - self.offset[index[0]]) == index[1]'.format(NB.format('index[0]')),
                     'self.ids_lo <= result', 'result < self.ids_hi'],
@@ -129,7 +130,7 @@ CONTRACTS = {
             'point': {},
             # the projection e(u, None): refused iff u is not a left vertex; otherwise the identifiers of ALL edges at u, in neighbour
             # order - the contiguous block offset[u], offset[u]+1, ... (what the generator yields when consumed)
-            'row': {'params': {'index': 'tuple:int,none'}, 'returns': 'iseq', 'requires!': [],
+            'row': {'params': {'index': 'tuple:int,none'}, 'returns': 'iseq',
                     'supports': ['len(index) == 2'],
                     'raises': {'ValueError': 'not (1 <= index[0] and index[0] <= self.G.lorder)'},
                     'ensures!': ['ilen(result) == ilen({})'.format(NB.format('index[0]')),
@@ -137,7 +138,7 @@ CONTRACTS = {
                                 'forall(lambda t: implies(0 <= t and t < ilen(result), self.ids_lo <= iget(result, t) and iget(result, t) < self.ids_hi))']},
             # the projection e(None, v): refused iff v is not a right vertex; otherwise, for every left neighbour w of v in list order,
             # the identifier of the edge (w, v)
-            'col': {'params': {'index': 'tuple:none,int'}, 'returns': 'iseq', 'requires!': [],
+            'col': {'params': {'index': 'tuple:none,int'}, 'returns': 'iseq',
                     'supports': ['len(index) == 2'],
                     'raises': {'ValueError': 'not (1 <= index[1] and index[1] <= self.G.rorder)'},
                     'ensures!': ['ilen(result) == ilen(lnbrs(self.G.gid, index[1]))',
